@@ -35,25 +35,26 @@ var sharedSeq = []bool{false, true, true, false, false}
 //     which clause of the statement the further call breaks.
 //
 // It returns the number of conversion applications observed.
-func checkSharedSlice(c *core.Ctx, types []cty.Type, nodes []*model.TNode, vals [][]cty.Value, first [2]uniResult, hasDyn, eq bool) int {
+func checkSharedSlice(c *core.Ctx, lib, types []cty.Type, nodes []*model.TNode, vals [][]cty.Value, first [2]uniResult, hasDyn, eq bool, tw *typeWatch) int {
 	if first[0].panicked || first[1].panicked {
 		return 0 // already reported; nothing to compare with
 	}
-	shared := append([]cty.Type(nil), types...)
+	shared := append([]cty.Type(nil), lib...)
 	applied := 0
 	changed := false
 	hist := make([]string, 0, len(sharedSeq))
 	for k, unsafe := range sharedSeq {
 		site := siteOf(unsafe)
 		hist = append(hist, strings.TrimPrefix(site, "convert."))
-		u := callUnifyOn(c, shared, types, unsafe)
+		u := callUnifyOn(c, shared, types, unsafe, tw)
 		c.Count("history:same-slice-call")
 		if u.panicked {
 			return applied
 		}
 		// (a) the caller's slice is untouched
 		c.Count("clause:callers-slice-unchanged")
-		if at, was, is := firstChanged(shared, types); at >= 0 && !changed {
+		// (when a type itself was rewritten, typeWatch has said so already: the slice holds what it held)
+		if at, was, is := firstChanged(shared, types); at >= 0 && !changed && !tw.damaged {
 			changed = true
 			c.Violate(site, facetSliceChanged, was+">"+is, typesGo(types),
 				fmt.Sprintf("calls so far over the one slice: %s; after the last one position %d holds %s, the caller put %#v there; slice now: %s",
@@ -140,7 +141,7 @@ func applyFew(c *core.Ctx, types []cty.Type, vals [][]cty.Value, u uniResult, un
 
 // callUnifyOn calls one mode over the slice `in` itself (no copy). witness is
 // the list the caller wrote, used for reporting only.
-func callUnifyOn(c *core.Ctx, in, witness []cty.Type, unsafe bool) uniResult {
+func callUnifyOn(c *core.Ctx, in, witness []cty.Type, unsafe bool, tw *typeWatch) uniResult {
 	site := siteOf(unsafe)
 	var u uniResult
 	o := core.Guard(func() {
@@ -152,6 +153,7 @@ func callUnifyOn(c *core.Ctx, in, witness []cty.Type, unsafe bool) uniResult {
 	})
 	c.Eval(1)
 	c.Count("op:" + site)
+	tw.after(c, site, witness)
 	if o.Panicked {
 		c.Violate(site, "panic: "+core.PanicClass(o.PanicMsg), "unify-call over a slice unified before "+dynClass(witness, 0), typesGo(witness), o.PanicMsg+"\n"+o.Stack)
 		return uniResult{panicked: true}
